@@ -6,6 +6,7 @@ import MD.Model.Config
 import MD.Model.IsoFit
 import MD.Model.Decompose
 import MD.Model.PD
+import MD.Model.Marginal
 import MD.Model.Validate
 import MD.Model.Plot
 /-! JSON-lines driver: one request per line on stdin, one response per line on stdout. -/
@@ -171,6 +172,28 @@ def getRatMatrix (j : Json) (k : String) : Except String (List (List Rat)) :=
 def blocksJson (bs : List (Blk Rat)) : Json :=
   Json.mkObj [("x", ratsToJson (expand bs)), ("r", natsToJson (bounds bs))]
 
+/-- the `partial_dependence` column of `compute_marginal` for the rows of a table (request field `pd`:
+`X` numeric rows with the feature in column 0 and a second column 1, the predict-function family
+`a b c` (numeric: `predFamily`, string-like: `predCat c`), optional weights `w` and drawn indices `sub`) -/
+def pdColumnJson (j : Json) (rows : List (OutRow Rat)) (isReal : OutRow Rat → Bool) (valOf : OutRow Rat → Rat) :
+    Except String Json := do
+  match j.getObjVal? "pd" with
+  | .ok p =>
+    let X ← getRatMatrix p "X"
+    let a ← getRat p "a"
+    let b ← getRat p "b"
+    let c ← getRat p "c"
+    let w ← getOptRats p "w"
+    let cat := match p.getObjVal? "cat" with | .ok (.bool true) => true | _ => false
+    let sub : Option (List Nat) := match p.getObjVal? "sub" with
+      | .ok (.arr arr) => some (arr.toList.filterMap (fun v => match v with
+          | .num n => some n.mantissa.toNat | _ => none))
+      | _ => none
+    let f : List Rat → Rat := if cat then predCat c 0 1 else predFamily a b c 0 1
+    let col := marginalPD f X 0 (rows.map valOf) (rows.map isReal) w sub
+    pure (.arr (col.map (fun o => match o with | none => Json.null | some v => ratToJson v)).toArray)
+  | _ => pure Json.null
+
 def handle (j : Json) : Except String Json := do
   let op ← getStr j "op"
   match op with
@@ -301,7 +324,8 @@ def handle (j : Json) : Except String Json := do
         let b := binNumeric m nBins given feature
         let keys := b.bins.map (fun o => match o with | none => Key.null | some i => Key.num i)
         let rows := groupedTable keys feature b.edges cols w b.nBins none none
-        pure (Json.mkObj [("rows", .arr (rows.map rowJson).toArray), ("n_bins", .num ⟨(b.nBins : Int), 0⟩)])
+        let pdv ← pdColumnJson j rows (fun _ => true) (fun r => match r.featMean with | .fin v => v | _ => 0)
+        pure (Json.mkObj [("rows", .arr (rows.map rowJson).toArray), ("n_bins", .num ⟨(b.nBins : Int), 0⟩), ("pd", pdv)])
       else
         let feature ← getOptStrs j "feature"
         let enumOrder : Option (List String) := match j.getObjVal? "enum" with
@@ -310,8 +334,14 @@ def handle (j : Json) : Except String Json := do
         let b := binString enumOrder nBins feature
         let keys := b.bins.map (fun o => match o with | none => Key.null | some s => Key.str s)
         let rows := groupedTable keys (feature.map (fun _ => Cell.null)) (feature.map (fun _ => none)) cols w b.nBins enumOrder b.pooled
+        let keyOpt (r : OutRow Rat) : Option String := match r.key with | .str s => some s | _ => none
+        let keyvals : String → Rat := fun s => match (j.getObjVal? "pd").toOption.bind (fun p => (p.getObjVal? "keyvals").toOption) with
+          | some kv => (match kv.getObjVal? s with | .ok v => (ratOfJson? v).getD 0 | _ => 0)
+          | none => 0
+        let pdv ← pdColumnJson j rows (fun r => isRealKey feature (keyOpt r))
+          (fun r => match keyOpt r with | some s => keyvals s | none => 0)
         pure (Json.mkObj [("rows", .arr (rows.map rowJson).toArray), ("n_bins", .num ⟨(b.nBins : Int), 0⟩),
-          ("pooled", match b.pooled with | none => .null | some s => .str s)])
+          ("pooled", match b.pooled with | none => .null | some s => .str s), ("pd", pdv)])
   | "pd" =>
     let X ← getRatMatrix j "X"
     let jj ← getNat j "j"
